@@ -23,7 +23,7 @@ fn spec(kind: &Kind) -> ConeSpec {
 
 /// direction menu for a point v of dimension n
 fn ndirs(n: usize) -> u64 {
-    (8 + 2 * n) as u64
+    (10 + 2 * n) as u64
 }
 fn direction(kind: &Kind, v: &[f64], which: u64, mag: f64) -> (Vec<f64>, &'static str) {
     let n = v.len();
@@ -70,9 +70,45 @@ fn direction(kind: &Kind, v: &[f64], which: u64, mag: f64) -> (Vec<f64>, &'stati
             }
             (g, "tangent")
         }
+        8 | 9 => {
+            // exactly on the boundary of the NEGATIVE cone (for a second-order cone y0 = -||y1|| exactly, so the
+            // quadratic's leading coefficient vanishes): leaves through the apex side at a finite step
+            let g = match kind {
+                Kind::NN(_) => {
+                    let mut g = vec![0.0; n];
+                    g[n - 1] = -1.0;
+                    g
+                }
+                Kind::SOC(_) => {
+                    let mut g = vec![0.0; n];
+                    if w == 8 || n < 3 {
+                        g[0] = -1.0;
+                        if n > 1 {
+                            g[1] = 1.0;
+                        }
+                    } else {
+                        g[0] = -5.0;
+                        g[1] = 3.0;
+                        g[2] = -4.0;
+                    }
+                    g
+                }
+                Kind::PSD(k) => {
+                    let mut m = Dense::zeros(*k, *k);
+                    m.set(k - 1, k - 1, -1.0);
+                    if w == 9 && *k > 1 {
+                        m.set(0, 0, -1.0);
+                        m.set(0, k - 1, -1.0);
+                        m.set(k - 1, 0, -1.0);
+                    }
+                    mat_to_svec(&m)
+                }
+            };
+            (g.iter().map(|x| x * vmax).collect(), "minus-boundary-ray")
+        }
         _ => {
-            let k = (w - 8) / 2;
-            let sgn = if (w - 8) % 2 == 0 { -1.0 } else { 1.0 };
+            let k = (w - 10) / 2;
+            let sgn = if (w - 10) % 2 == 0 { -1.0 } else { 1.0 };
             let mut g = vec![0.0; n];
             g[k] = sgn * 2.0 * vmax;
             (g, "basis")
@@ -553,7 +589,10 @@ impl Space for Composite {
         };
         // ... and the step is not needlessly short: one backtracking factor further (capped) something must block
         let cap = if any_nonsym { amax.min(msf) } else { amax };
-        let further = (a / bt).min(cap);
+        // (the line search of a nonsymmetric member starts from alpha_max itself, not from the max_step_fraction
+        // cap, so "one factor further" is bounded by alpha_max: a member that blocks exactly at alpha_max
+        // legitimately yields backtrack * alpha_max)
+        let further = (a / bt).min(amax);
         let mut blocked = a >= cap * (1.0 - 1e-12);
         let mut blocked_sym_exact = false;
         for c in &l {
